@@ -81,6 +81,47 @@ def guard_fields(body, s):
     return fs, sl
 
 
+def _status_selected_by_content_range(body, op):
+    """the operand holds 206 exactly on the paths where `content_range` is present and 200 on the others"""
+    from .. import guards
+    p = flow.op_place(op)
+    if p is None or p["proj"]:
+        return False
+    l = p["l"]
+    for _ in range(4):
+        ds = [d for d in body.defs().get(l, []) if d["kind"] != "mutarg"]
+        if len(ds) == 1 and ds[0]["kind"] == "assign" and ds[0]["rv"]["k"] == "use" and flow.op_place(ds[0]["rv"]["ops"][0]) is not None and \
+                not flow.op_place(ds[0]["rv"]["ops"][0])["proj"]:
+            l = flow.op_place(ds[0]["rv"]["ops"][0])["l"]
+            continue
+        break
+    codes = {}
+    for d in [d for d in body.defs().get(l, []) if d["kind"] != "mutarg"]:
+        if d["kind"] != "assign" or d["rv"]["k"] != "use":
+            return False
+        c = status_of_const(flow.const_of(body, d["rv"]["ops"][0]))
+        if c is None:
+            return False
+        present = None
+        for f in guards.dominating_facts(body, d["bi"]):
+            subj_is_cr = False
+            if f[0] == "call" and f[1] in ("core::option::Option::<T>::is_some", "core::option::Option::<T>::is_none"):
+                ct = body.blocks[f[3]]["term"]
+                sl = flow.backward(body, ct["args"][0], at=f[3])
+                subj_is_cr = any(flow.proj_names(pr)[:1] == ["content_range"] for _, pr in sl.params)
+                if subj_is_cr:
+                    present = f[2] if f[1].endswith("is_some") else (not f[2])
+            elif f[0] == "enum" and f[3] is not None and f[1].startswith("core::option::Option<") and f[3][0] == 1 and flow.proj_names(f[3][1])[:1] == ["content_range"]:
+                if f[2] == frozenset(["Some"]):
+                    present = True
+                elif f[2] == frozenset(["None"]):
+                    present = False
+        if present is None:
+            return False
+        codes.setdefault(c, set()).add(present)
+    return codes == {206: {True}, 200: {False}}
+
+
 def rule_r1(chk, db, model):
     ops = model.operations()
     n_ops = 0
@@ -115,7 +156,21 @@ def rule_r1(chk, db, model):
             if op.name == "GetObject":
                 # deviation: 206 iff content_range is set (issue 118)
                 ok = init == 200 and len(cond_status) == 1 and cond_status[0][1] == 206
-                if ok:
+                if not ok and init is None and not cond_status:
+                    # `let status = if x.content_range.is_some() { PARTIAL_CONTENT } else { OK }; Response::with_status(status)`
+                    ok = _status_selected_by_content_range(body, body.blocks[status_sites[0][0]]["term"]["args"][0])
+                    if ok:
+                        chk.ok("R1", key, body.loc(status_sites[0][0]), {"status": "200 / 206 selected by content_range"})
+                        continue_status = True
+                    else:
+                        continue_status = False
+                    if continue_status:
+                        init = 200
+                        cond_status = [(-1, 206)]
+                        ok = None
+                if ok is None:
+                    pass
+                elif ok:
                     gs = bypass_guards(body, cond_status[0][0], okrets)
                     fs = set()
                     for s in gs:
@@ -123,8 +178,9 @@ def rule_r1(chk, db, model):
                         fs |= f
                     ok = fs == {(1, "content_range")}
                     # and it must be the `Some` side: the guard is is_some()==true
-                chk.verdict(ok, "R1", key, body.loc(status_sites[0][0]),
-                            "GetObject status must be 200, and 206 exactly when content_range is set (found init=%s overrides=%s)" % (init, cond_status))
+                if ok is not None:
+                    chk.verdict(ok, "R1", key, body.loc(status_sites[0][0]),
+                                "GetObject status must be 200, and 206 exactly when content_range is set (found init=%s overrides=%s)" % (init, cond_status))
             else:
                 ok = init == op.code and not cond_status
                 chk.verdict(ok, "R1", key, body.loc(status_sites[0][0]),
@@ -243,6 +299,9 @@ def s3resp_local_fields(body, op, want_field):
     for l, pr in flow.resolve_chain(body, op) or []:
         if body.locals[l].startswith("s3s::protocol::S3Response<") and flow.proj_names(fields_first(pr))[:1] == [want_field]:
             return True
+        # the response still wrapped (`Ok(S3Response { headers, .. })` matched out of the call's result)
+        if any(e[0] == "f" and len(e) > 3 and e[2] == want_field and e[3] == "s3s::protocol::S3Response" for e in pr):
+            return True
     return False
 
 
@@ -311,6 +370,27 @@ def rule_r2_r3(chk, db, impls):
                             s3 = flow.backward(hb, t2["args"][-1], at=bi2)
                             if any(l == 2 for l, _ in s3.params):
                                 lossy_note.append("%s copies the backend's headers with HeaderMap::insert (multi-valued headers collapse) at %s" % (short(d), hb.loc(bi2)))
+        if not hdr:
+            # `serialize_http(output).map(|mut resp| { resp.headers.extend(headers); resp })`: the merge sits in a closure that captured the
+            # backend's headers
+            for c in db.nested(b, include_self=False):
+                for bi2, t2 in c.calls():
+                    d2 = callee_def(t2)
+                    if not (d2 == "core::iter::traits::collect::Extend::extend" or d2.endswith("HeaderMap::<T>::extend")) or len(t2["args"]) < 2:
+                        continue
+                    if resp_field(c, t2["args"][0]) != "headers":
+                        continue
+                    for l, pr in flow.resolve_chain(c, t2["args"][1]) or []:
+                        fs = [e for e in pr if e[0] == "f"]
+                        if l != 1 or not fs:
+                            continue
+                        pb = db.bodies.get(c.parent) or b
+                        for _, _, st in pb.stmts():
+                            rv = st["rv"]
+                            if rv["k"] == "agg" and rv.get("agg") == "closure" and rv.get("def") == c.name and fs[0][1] < len(rv["ops"]):
+                                if s3resp_local_fields(pb, rv["ops"][fs[0][1]], "headers"):
+                                    hdr = True
+                                    hdr_loc = c.loc(bi2)
         chk.verdict(hdr and not lossy_note, "R2", name + ".headers", hdr_loc,
                     ("%s::call never merges the backend's S3Response.headers into the response" % name) if not lossy_note else "; ".join(lossy_note))
         if name == "CompleteMultipartUpload":
